@@ -83,6 +83,7 @@ struct PRun {
   bool anyFailure = false;
   int work[kMaxStages];         // planned extra body length per stage (simulation points)
   char serialCell[kMaxStages];  // C10: unsynchronised state of a serial (limit 1) stage
+  bool pipelineReturned = false; // pipeline() has returned or thrown: nothing of it may still be running
 };
 static PRun* gp;
 
@@ -96,6 +97,13 @@ static void fail27(const char* what, int stage, int id) {
 
 static void enterStage(int stage, Item& it) {
   PRun& r = *gp;
+  if (r.pipelineReturned) {
+    // the stage objects live in pipeline()'s frame: an invocation that is still running (or starts) now
+    // works on destroyed queues.  Reported here, before it crashes there.
+    char cls[128];
+    snprintf(cls, sizeof cls, "%s:stage-invocation-after-pipeline-returned", r.thrown ? "exception" : "delivery");
+    sim_fail(cls, "stage %d was invoked (item %d) after pipeline() had %s", stage, it.id, r.thrown ? "thrown" : "returned");
+  }
   r.gauge[stage].enter();
   if (r.focus == 28 && r.limit[stage] < 1000 && r.gauge[stage].cur > r.limit[stage]) {
     char cls[128];
@@ -358,7 +366,9 @@ static void pipeProgram(int focus, bool handoff = false, bool saturate = false) 
     bool caught = false;
     try {
       runShape(pool, shape);
+      r.pipelineReturned = true;
     } catch (Boom& b) {
+      r.pipelineReturned = true;
       caught = true;
       if (!r.thrown || b.tag != r.thrownTag)
         sim_fail("exception:wrong-exception-rethrown", "pipeline() threw tag %d, the stage threw %d", b.tag, r.thrownTag);
@@ -399,6 +409,7 @@ static void pipeProgram(int focus, bool handoff = false, bool saturate = false) 
     gp = &r;
   } else {
     runShape(pool, shape);
+    r.pipelineReturned = true;
     checkDelivery();
     if (g_live != 0)
       sim_fail("items-leaked", "%d item payloads alive after pipeline() returned", g_live);
